@@ -274,7 +274,7 @@ def block_escape(check: Check, repo: Repo) -> None:
              f"join constants: {[j.func.value.value for j in joins]!r}")
     pr = repo.func("language.block_string", "is_printable_as_block_string")
     nl = {
-        c.value for n in walk_body(pr) if isinstance(n, ast.Compare)
+        c.value for n in walk_body(pr) if isinstance(n, (ast.Compare, ast.MatchValue))  # `c == "\n"` or `case "\n":`
         for c in ast.walk(n) if isinstance(c, ast.Constant) and isinstance(c.value, str) and set(c.value) & set("\n\r")
     }
     check.ob(rule, pr, "is_printable_as_block_string newline test", nl == {"\n"}, f"newline constants tested: {sorted(nl)!r}")
@@ -843,6 +843,12 @@ def ws_agree(check: Check, repo: Repo, modules: list[str]) -> None:
                 consts = [r] if isinstance(r, ast.Constant) else list(getattr(r, "elts", []))
                 vals = [x.value for x in consts if isinstance(x, ast.Constant) and isinstance(x.value, str)]
                 if vals and all(v and set(v) <= set(" \t") for v in vals):
+                    sets.add("".join(sorted(set("".join(vals)))))
+            elif isinstance(c, ast.match_case):
+                # `case " " | "\t":` is the membership test `in " \t"` in pattern form
+                pats = c.pattern.patterns if isinstance(c.pattern, ast.MatchOr) else [c.pattern]
+                vals = [p_.value.value for p_ in pats if isinstance(p_, ast.MatchValue) and isinstance(p_.value, ast.Constant) and isinstance(p_.value.value, str)]
+                if vals and len(vals) == len(pats) and all(v and set(v) <= set(" \t") for v in vals):
                     sets.add("".join(sorted(set("".join(vals)))))
         ok = bool(sets) and all(set(s) == {" ", "\t"} for s in sets)
         check.ob(rule, fn, f"blank set used by {fn_name}", ok, f"sets: {sorted(sets)!r}" if sets else "no explicit ' \\t' membership test: blanks are decided some other way")
@@ -1437,9 +1443,12 @@ def removed_child_is_none(check: Check, repo: Repo, rule: str = "EDIT-SENTINEL")
         removals = [c for c in ast.walk(lp) if (isinstance(c, ast.Call) and isinstance(c.func, ast.Attribute) and c.func.attr in ("pop", "__delitem__"))
                     or isinstance(c, ast.Delete)]
         # must-store: every path through the loop body stores values[edit_key]
-        unconditional = any(s in lp.body for s in stores) or (
-            len(lp.body) == 1 and isinstance(lp.body[0], ast.If) and lp.body[0].orelse
-            and any(s in lp.body[0].body for s in stores) and any(s in lp.body[0].orelse for s in stores))
+        cfg_ = CFG(fn)
+        store_nodes = {n_ for s in stores for n_ in cfg_.nodes_of(s)}
+        head_ = cfg_.nodes_of(lp)[0]
+        first_ = cfg_.nodes_of(lp.body[0])[0]
+        unconditional = bool(stores) and (first_ in store_nodes or cfg_.find_path(
+            first_, lambda nd: nd is head_, follow=no_exc, avoid=lambda nd: nd in store_nodes) is None)
         ok = unconditional and not removals
         check.ob(rule, lp, "node arm: every recorded edit is stored under its key (REMOVE as None)", ok,
                  "values[edit_key] is assigned on every path; no key is deleted" if ok else
@@ -2232,6 +2241,26 @@ def leaf_text_verbatim(check: Check, repo: Repo, rule: str = "LEAF-VERBATIM") ->
             ok = v is not None and unparse(v) == f"{p}.value"
             check.ob(rule, r, f"leave_{kind}: return {unparse(r.value)[:40] if r.value is not None else None}", ok,
                      "the token text itself" if ok else f"the text is rewritten (`{unparse(v)[:50] if v is not None else None}`): the printed numeral / name is not the one that was parsed")
+
+
+def pattern_facts(node: ast.AST) -> set[tuple[str, bool]]:
+    """`isinstance(<subject>, <Class>)` facts that hold at `node` because it sits in a `case <Class>():` arm of a
+    `match <subject>:` statement (the pattern spelling of an isinstance chain)."""
+    out: set[tuple[str, bool]] = set()
+    child: ast.AST = node
+    for a in ancestors(node):
+        if isinstance(a, (*FuncDef, ast.Lambda)):
+            break
+        if isinstance(a, ast.match_case) and isinstance(parent(a), ast.Match):
+            subj = unparse(parent(a).subject)
+            pats = a.pattern.patterns if isinstance(a.pattern, ast.MatchOr) else [a.pattern]
+            classes = [unparse(p_.cls) for p_ in pats if isinstance(p_, ast.MatchClass) and not p_.patterns and not p_.kwd_patterns]
+            if len(classes) == len(pats) == 1:
+                out.add((f"isinstance({subj}, {classes[0]})", True))
+            elif classes and len(classes) == len(pats):
+                out.add((f"isinstance({subj}, ({', '.join(classes)}))", True))
+        child = a
+    return out
 
 
 def enclosing_conditions(node: ast.AST) -> set[tuple[str, bool]]:
